@@ -84,6 +84,49 @@ CLAIMED["C04"] = dict(
     technique="generated verification conditions from the parsed real function bodies, discharged by sympy",
 )
 
+CLAIMED["C05"] = dict(
+    level="proof",
+    text="The real vnadata_convert is verified with each of the 90 vnaconv_* functions replaced by a recording "
+         "contract generated from vnaconv.h: for every accepted (from,to) pair the function invoked is the one "
+         "NAMED for that pair, once per frequency, on that frequency's matrices, with that frequency's reference "
+         "impedances of the input (ordinary or per-frequency); refused type/dimension combinations leave the "
+         "output bitwise-view unchanged with one EINVAL report; frequencies, impedances, z0 mode, precisions and "
+         "file type are carried over; the result is a well-formed object, which includes that after conversion to "
+         "Zin (in place or not) every cell beyond 1 x ports holds its initial value.  In-place runs have both "
+         "types symbolic over the whole 11x11 table; out-of-place runs enumerate type pairs.",
+    note="bounded shapes (<=3x3, <=2 frequencies); what the vnaconv functions compute is C04; vnadata_set_format "
+         "by stub; A->B->C == A->C not checked here; shared C15 assumptions",
+    design="DESIGN.md 3 C05, 8.8",
+    technique="CBMC contract harness on the real vnadata_convert with generated recording contracts",
+)
+CLAIMED["C12"] = dict(
+    level="fault_enumeration",
+    text="For each scripted history the number K of allocations made by library code is measured natively on the "
+         "same harness, and EVERY index k = 1..K is failed once (counted malloc/calloc/realloc/strdup wrapper "
+         "injected with -D, no source change); each k is one CBMC proof run with symbolic values checking: no "
+         "memory-safety violation, documented failure value, errno ENOMEM, one SYSTEM error report, object well "
+         "formed afterwards, the repeated call succeeds silently, the history ends in the fault-free state, and "
+         "nothing remains allocated after the free functions.",
+    note="quick tier: vnadata script (alloc, init, setters incl. both z0 mode switches, resize grow/shrink, free); "
+         "thorough adds add_frequency (0->50 allocation step) and the vnacal create/parameters/free script; "
+         "add_*/solve/save/load paths are outside",
+    design="DESIGN.md 2.2 E4, 3 C12, 8.7",
+    technique="exhaustive single-allocation-fault enumeration, one CBMC proof run per fault index",
+)
+CLAIMED["C13"] = dict(
+    level="proof",
+    text="The container layer of the property tree (static functions of vnaproperty.c, reached by including the "
+         "translation unit) is verified against abstract views: lists from ANY well-formed list of allocation 0 "
+         "or 8 (including completely full) for subscript/insert/append/delete/count with the whole-sequence "
+         "postcondition (children before kept, after shifted, slack slots null, deleted subtree freed); maps by "
+         "every 3-step set/get/delete sequence from the empty map over keys chosen to share a hash bucket, "
+         "against an insertion-ordered model, with no leak on failed lookups.",
+    note="descriptor scanner/parser, vnaproperty_quote_key, vnacal_property_* wrappers and errno classes of "
+         "malformed descriptors are NOT covered (symex over heap strings did not finish); bounded sizes",
+    design="DESIGN.md 3 C13, 8.5",
+    technique="CBMC contract harnesses on the static container functions (sequence / ordered-map views)",
+)
+
 NA = {
     "C02": "iterative floating-point convergence (Levenberg-Marquardt / TRL) has no contract CBMC can discharge; see DESIGN.md 3 C02",
     "C06": "property is about bytes written by fprintf and read by an independent reader; no CBMC model of formatted I/O (a stub would be the oracle); DESIGN.md 3 C06",
